@@ -24,6 +24,7 @@ type UnitResult struct {
 	Returns  int
 	Panics   int
 	Vacuity  []*Obligation
+	AxiomCheck *Obligation // precondition + axioms in use: must be satisfiable (or at least not refutable)
 }
 
 func (p *Program) verifyUnit(u *Unit) *UnitResult {
@@ -106,6 +107,10 @@ func (p *Program) verifyUnitOnce(u *Unit, splitVal *big.Int, sitePrefix string) 
 	x.entryPC = len(st.pc)
 	x.applyLemmas(nil, st, env, "entry")
 	x.applyUses(st, env)
+	if len(c.Uses) > 0 || len(st.pc) > x.entryPC {
+		// vacuity: the precondition together with the axioms / lemma instances in use must not be contradictory
+		res.AxiomCheck = &Obligation{Unit: u.Name, Kind: "vacuity", Label: "axioms", Assumes: append([]*Term(nil), st.pc...), ExpectSat: true, Src: "precondition and the axioms in use are not contradictory"}
+	}
 	var outs []*Outcome
 	func() {
 		defer func() {
@@ -433,19 +438,73 @@ func (x *Exec) loopHeader(f *Frame, st *State, b *ssa.BasicBlock, prev *ssa.Basi
 		f.regs[phi] = vals[j]
 	}
 	label := func(iv *Clause) string { return fmt.Sprintf("%s#%d:%s", lastName(fkey), k, iv.Label) }
-	if len(invs) == 0 {
-		x.oblige(st, "loopinv-missing", fmt.Sprintf("%s#%d", lastName(fkey), k), x.pos(b.Instrs[0].Pos()), False, "loop without invariant in "+fkey)
-		return nil, true
-	}
 	env := x.frameEnv(f, st, b)
 	x.addTopLets(env)
 	// witness definitions (skolem functions of the contract) are available at loop heads too
-	if c != nil {
-		for _, wc := range c.Witness {
+	wcs := c
+	if wcs == nil {
+		wcs = x.unit.Contract
+	}
+	if wcs != nil {
+		for _, wc := range wcs.Witness {
 			if t, err := x.evalBool(env, wc.Expr); err == nil {
 				st.assume(t)
 			}
 		}
+	}
+	// invariants that no longer fit the loop (renamed variables, changed loop form, loop moved into a helper): see adapt.go
+	akey := fmt.Sprintf("%s#%d", fkey, k)
+	if x.adapt == nil {
+		x.adapt = map[string]*loopAdapt{}
+	}
+	ad, adapted := x.adapt[akey]
+	if !adapted && !isBack {
+		var groups [][]*Clause
+		if len(invs) > 0 {
+			groups = [][]*Clause{invs}
+		} else if c == nil && x.unit.Contract != nil {
+			byLoop := map[int][]*Clause{}
+			var ks []int
+			for _, iv := range x.unit.Contract.Invariants {
+				if iv.Fn == "" {
+					if _, ok := byLoop[iv.Loop]; !ok {
+						ks = append(ks, iv.Loop)
+					}
+					byLoop[iv.Loop] = append(byLoop[iv.Loop], iv)
+				}
+			}
+			sort.Ints(ks)
+			for _, kk := range ks {
+				groups = append(groups, byLoop[kk])
+			}
+		}
+		if len(groups) > 0 {
+			needs := len(invs) == 0
+			if !needs {
+				e0 := x.frameEnv(f, st, b)
+				x.addTopLets(e0)
+				needs = len(x.unknownIdents(e0, invs)) > 0
+			}
+			if needs {
+				if a := x.tryAdapt(f, st, b, groups); a != nil {
+					x.adapt[akey] = a
+					ad, adapted = a, true
+					x.assumed[fmt.Sprintf("invariants of loop %s adapted to the code: %s (proved inductive as usual)", akey, a.String())] = true
+				} else {
+					x.adapt[akey] = nil
+				}
+			}
+		}
+	}
+	if ad != nil {
+		invs = ad.group
+	}
+	if len(invs) == 0 {
+		x.oblige(st, "loopinv-missing", fmt.Sprintf("%s#%d", lastName(fkey), k), x.pos(b.Instrs[0].Pos()), False, "loop without invariant in "+fkey)
+		return nil, true
+	}
+	if ad != nil {
+		ad.apply(env)
 	}
 	for _, iv := range invs {
 		t, err := x.evalBool(env, iv.Expr)
@@ -567,6 +626,9 @@ func (x *Exec) loopHeader(f *Frame, st *State, b *ssa.BasicBlock, prev *ssa.Basi
 	}
 	env = x.frameEnv(f, st, b)
 	x.addTopLets(env)
+	if ad != nil {
+		ad.apply(env)
+	}
 	for _, iv := range invs {
 		t, err := x.evalBool(env, iv.Expr)
 		if err != nil {
